@@ -891,6 +891,204 @@ v("C20", "benign-bandwidth-local-rename", "benign", GAME,
   '''            bandwidth = link_cfg.get("bandwidth", DEFAULT_BANDWIDTH)  # default value if not configured''',
   '''            bandwidth = link_cfg.get("bandwidth") if "bandwidth" in link_cfg else DEFAULT_BANDWIDTH''', None, "same value computed differently")
 
+
+# ------------------------------------------------------------------------------------------------ C10
+REWARDS = P + "game/agent/rewards.py"
+SCIENCE = P + "game/science.py"
+v("C10", "weight-ignored", "break", REWARDS,
+  "            total += weight * comp.calculate(state=state, last_action_response=last_action_response)",
+  "            total += comp.calculate(state=state, last_action_response=last_action_response)", "R10.1", "weights dropped from the sum")
+v("C10", "first-component-only", "break", REWARDS,
+  "            total += weight * comp.calculate(state=state, last_action_response=last_action_response)\n        self.current_reward = total",
+  "            total += weight * comp.calculate(state=state, last_action_response=last_action_response)\n            break\n        self.current_reward = total", "R10.1", "only the first component counts")
+v("C10", "declaration-order", "break", GAME,
+  "        for agent_name in self._reward_calculation_order:\n            agent = self.agents[agent_name]",
+  "        for agent_name in self.agents:\n            agent = self.agents[agent_name]", "R10.2", "rewards evaluated in declaration order: shared rewards read last step's value")
+v("C10", "total-counted-twice", "break", GAME,
+  "            agent.reward_function.total_reward += agent.reward_function.current_reward",
+  "            agent.reward_function.total_reward += agent.reward_function.current_reward\n            agent.reward_function.total_reward += agent.reward_function.current_reward", "R10.2", "step reward counted twice in the episode total")
+v("C10", "edge-reversed", "break", GAME,
+  "                    graph[name].add(comp.config.agent_name)",
+  "                    graph[comp.config.agent_name].add(name)", "R10.3", "dependency edges reversed: dependants first")
+v("C10", "cycle-check-after", "break", GAME,
+  "        if graph_has_cycle(graph):", "        if False and graph_has_cycle(graph):", "R10.3", "cyclic sharing accepted")
+v("C10", "toposort-preorder", "break", SCIENCE,
+  "        visited.add(node)\n        for neighbour in graph.get(node, []):\n            dfs(neighbour)\n        stack.append(node)",
+  "        visited.add(node)\n        stack.append(node)\n        for neighbour in graph.get(node, []):\n            dfs(neighbour)", "R10.3", "pre-order: an agent is evaluated before the agents it reads")
+v("C10", "cycle-visited-first", "break", SCIENCE,
+  "        if node in currently_visiting:\n            return True  # Cycle detected\n        if node in visited:\n            return False  # Already visited, no need to explore further",
+  "        if node in visited:\n            return False  # Already visited, no need to explore further\n        if node in currently_visiting:\n            return True  # Cycle detected", "R10.3", "back edges are never seen")
+v("C10", "sticky-reset", "break", REWARDS,
+  "        elif not self.config.sticky:  # if no new request and not sticky, set reward to 0\n            last_action_response.reward_info = {\"connection_attempt_status\": \"n/a\"}\n            self.reward = 0.0",
+  "        elif self.config.sticky:  # if no new request and not sticky, set reward to 0\n            last_action_response.reward_info = {\"connection_attempt_status\": \"n/a\"}\n            self.reward = 0.0", "R10.4", "sticky and non-sticky swapped")
+v("C10", "benign-loop-unpack", "benign", REWARDS,
+  "        for comp_and_weight in self.reward_components:\n            comp = comp_and_weight[0]\n            weight = comp_and_weight[1]\n            total +=",
+  "        for comp, weight in self.reward_components:\n            total +=", None, "tuple unpacking in the loop header")
+
+# ------------------------------------------------------------------------------------------------ C13
+SERVICE = P + "simulator/system/services/service.py"
+APPLICATION = P + "simulator/system/applications/application.py"
+v("C13", "start-from-any-state", "break", SERVICE,
+  "        if self.operating_state == ServiceOperatingState.STOPPED:\n            self.sys_log.info(f\"Starting service {self.name}\")",
+  "        if self.operating_state != ServiceOperatingState.RUNNING:\n            self.sys_log.info(f\"Starting service {self.name}\")", "R13.1", "a DISABLED or RESTARTING service can be started")
+v("C13", "pause-from-stopped", "break", SERVICE,
+  "        if self.operating_state == ServiceOperatingState.RUNNING:\n            self.sys_log.info(f\"Pausing service {self.name}\")\n            self.operating_state = ServiceOperatingState.PAUSED",
+  "        if self.operating_state in [ServiceOperatingState.RUNNING, ServiceOperatingState.STOPPED]:\n            self.sys_log.info(f\"Pausing service {self.name}\")\n            self.operating_state = ServiceOperatingState.PAUSED", "R13.1", "STOPPED -> PAUSED")
+v("C13", "restart-no-countdown", "break", SERVICE,
+  "            self.operating_state = ServiceOperatingState.RESTARTING\n            self.restart_countdown = self.restart_duration",
+  "            self.operating_state = ServiceOperatingState.RESTARTING", "R13.1", "restart completes with a stale countdown")
+v("C13", "install-completes-at-once", "break", APPLICATION,
+  "            self.install_countdown -= 1\n            if self.install_countdown <= 0:\n                self.operating_state = ApplicationOperatingState.RUNNING",
+  "            self.install_countdown -= 1\n            if self.install_countdown is not None:\n                self.operating_state = ApplicationOperatingState.RUNNING", "R13.1", "install finishes on the first tick")
+v("C13", "validator-wrong-state", "break", SERVICE,
+  "_is_service_paused = Service._StateValidator(service=self, state=ServiceOperatingState.PAUSED)",
+  "_is_service_paused = Service._StateValidator(service=self, state=ServiceOperatingState.STOPPED)", "R13.1", "resume request accepted exactly when resume() refuses")
+v("C13", "running-predicate-dropped", "break", SERVICE,
+  "        if self.operating_state is not ServiceOperatingState.RUNNING:\n            # service is not running\n            self.sys_log.debug(",
+  "        if self.operating_state is ServiceOperatingState.DISABLED:\n            # service is not running\n            self.sys_log.debug(", "R13.2", "stopped/paused services may act")
+v("C13", "dispatch-gate-dropped", "break", SWM,
+  "        if main_receiver and self._is_running(main_receiver):", "        if main_receiver:", "R13.2", "the original defect (main receiver)")
+v("C13", "listeners-ungated", "break", SWM,
+  "            if port in software.listen_on_ports and software != main_receiver and self._is_running(software)",
+  "            if port in software.listen_on_ports and software != main_receiver", "R13.2", "the original defect (listeners)")
+v("C13", "open-ports-all-software", "break", SWM,
+  "        for software in self.port_protocol_mapping.values():\n            if software.operating_state in {ApplicationOperatingState.RUNNING, ServiceOperatingState.RUNNING}:\n                open_ports.append(software.port)",
+  "        for software in self.port_protocol_mapping.values():\n            if software.operating_state:\n                open_ports.append(software.port)", "R13.3", "stopped software keeps its port open")
+v("C13", "uninstall-keeps-service-entry", "break", SWM,
+  "            self.node.services.pop(software.uuid)\n            software.uninstall()",
+  "            software.uninstall()", "R13.4", "uninstalled service stays in node.services and the reported state")
+v("C13", "benign-stop-tuple", "benign", SERVICE,
+  "        if self.operating_state in [ServiceOperatingState.RUNNING, ServiceOperatingState.PAUSED]:\n            self.sys_log.info(f\"Stopping service {self.name}\")",
+  "        if self.operating_state in (ServiceOperatingState.PAUSED, ServiceOperatingState.RUNNING):\n            self.sys_log.info(f\"Stopping service {self.name}\")", None, "list -> tuple, order swapped")
+
+# ------------------------------------------------------------------------------------------------ C14
+SOFTWARE = P + "simulator/system/software.py"
+FILE = P + "simulator/file_system/file.py"
+v("C14", "compromise-updates-visible", "break", SOFTWARE,
+  "        self.health_state_actual = health_state\n        return True",
+  "        self.health_state_actual = health_state\n        self.health_state_visible = health_state\n        return True", "R14.1", "agents see a compromise without scanning")
+v("C14", "scan-copies-good", "break", SOFTWARE,
+  "        self.health_state_visible = self.health_state_actual\n        return True",
+  "        self.health_state_visible = SoftwareHealthState.GOOD\n        return True", "R14.2", "a scan always reports GOOD")
+v("C14", "timestep-heals", "break", SOFTWARE,
+  "        super().apply_timestep(timestep)\n        if self.health_state_actual == SoftwareHealthState.FIXING:\n            self._update_fix_status()",
+  "        super().apply_timestep(timestep)\n        if self.health_state_actual == SoftwareHealthState.COMPROMISED and timestep % 97 == 0:\n            self.health_state_actual = SoftwareHealthState.GOOD\n        if self.health_state_actual == SoftwareHealthState.FIXING:\n            self._update_fix_status()", "R14.3", "true health changes without an event")
+v("C14", "fix-wrong-duration", "break", SOFTWARE,
+  "            self._fixing_countdown = self.config.fixing_duration",
+  "            self._fixing_countdown = self.fixing_count", "R14.4", "fix timer starts from the number of earlier fixes")
+v("C14", "fix-from-overwhelmed", "break", SOFTWARE,
+  "        if self.health_state_actual in (SoftwareHealthState.COMPROMISED, SoftwareHealthState.GOOD):",
+  "        if self.health_state_actual != SoftwareHealthState.FIXING:", "R14.4", "fix accepted in undocumented states")
+v("C14", "fix-finishes-early", "break", SOFTWARE,
+  "        self._fixing_countdown -= 1\n        if self._fixing_countdown <= 0:\n            self.set_health_state(SoftwareHealthState.GOOD)",
+  "        self._fixing_countdown -= 1\n        if self._fixing_countdown is not None:\n            self.set_health_state(SoftwareHealthState.GOOD)", "R14.4", "GOOD after one tick whatever the duration")
+v("C14", "node-scan-duration-ignored", "break", BASE,
+  "        self.node_scan_countdown = self.config.node_scan_duration\n        return True",
+  "        self.node_scan_countdown = self.config.start_up_duration\n        return True", "R14.4", "whole-node scan timed by the start-up duration")
+v("C14", "benign-scan-local", "benign", SOFTWARE,
+  "        self.health_state_visible = self.health_state_actual\n        return True",
+  "        actual = self.health_state_actual\n        self.health_state_visible = actual\n        return True", None, "copy through a local")
+
+# ------------------------------------------------------------------------------------------------ C16
+v("C16", "disabled-user-logs-in", "break", BASE,
+  "        if user and not user.disabled and user.password == password:",
+  "        if user and user.password == password:", "R16.1", "disabled accounts authenticate")
+v("C16", "password-not-compared", "break", BASE,
+  "        if user and not user.disabled and user.password == password:",
+  "        if user and not user.disabled and password:", "R16.1", "any non-empty password is accepted")
+v("C16", "password-inverted", "break", BASE,
+  "        if user and not user.disabled and user.password == password:",
+  "        if user and not user.disabled and user.password != password:", "R16.1", "only wrong passwords are accepted")
+v("C16", "session-before-auth", "break", BASE,
+  "        if not user:\n            self.sys_log.info(f\"{self.name}: Incorrect username or password\")\n            return None\n\n        session_id = None",
+  "        if not user:\n            self.sys_log.info(f\"{self.name}: Incorrect username or password\")\n\n        session_id = None", "R16.2", "failed authentication still creates a session")
+v("C16", "limit-off-by-one", "break", BASE,
+  "        return len(self.remote_sessions) >= self.max_remote_sessions",
+  "        return len(self.remote_sessions) > self.max_remote_sessions", "R16.3", "one session more than the maximum")
+v("C16", "limit-not-consulted", "break", BASE,
+  "            if not self.remote_session_limit_reached:\n                remote_session = RemoteUserSession.create(",
+  "            if True:\n                remote_session = RemoteUserSession.create(", "R16.2", "remote logins ignore the session limit")
+v("C16", "timeout-keeps-connection", "break", BASE,
+  "            self.parent.terminal._connections.pop(session.uuid)\n", "", "R16.6", "timed-out session keeps its terminal connection")
+v("C16", "first-session-only", "break", BASE,
+  "                logged_out = self._logout(local=False, remote_session_id=sess_id) or logged_out\n",
+  "                logged_out = self._logout(local=False, remote_session_id=sess_id) or logged_out\n                break\n", "R16.7", "the original defect")
+v("C16", "password-change-keeps-sessions", "break", BASE,
+  "            self._user_session_manager._logout_user(user=user)\n            return True",
+  "            return True", "R16.7", "sessions survive a password change")
+v("C16", "last-admin-disabled", "break", BASE,
+  "        return username in self.admins and len(self.admins) == 1",
+  "        return username in self.admins and len(self.admins) == 0", "R16.8", "the last admin can be disabled")
+v("C16", "benign-auth-nested", "benign", BASE,
+  "        if user and not user.disabled and user.password == password:\n            self.sys_log.info(f\"{self.name}: User authenticated: {username}\")\n            return user",
+  "        if user is not None and user.disabled is False:\n            if password == user.password:\n                self.sys_log.info(f\"{self.name}: User authenticated: {username}\")\n                return user", None, "conjunction nested, operands swapped")
+
+# ------------------------------------------------------------------------------------------------ C17
+DBS = P + "simulator/system/services/database/database_service.py"
+v("C17", "password-not-checked", "break", DBS,
+  "                if self.config.db_password == password:\n                    status_code = 200  # ok",
+  "                if self.config.db_password == password or password is None:\n                    status_code = 200  # ok", "R17.1", "connecting without a password succeeds")
+v("C17", "connect-while-stopped", "break", DBS,
+  "        if self.operating_state == ServiceOperatingState.RUNNING:\n            status_code = 503  # service unavailable",
+  "        if self.operating_state != ServiceOperatingState.DISABLED:\n            status_code = 503  # service unavailable", "R17.1", "a stopped service hands out connections")
+v("C17", "capacity-refusal-ignored", "break", DBS,
+  "                    if not self.add_connection(connection_id=connection_id, session_id=session_id):\n                        status_code = 500",
+  "                    if not self.add_connection(connection_id=connection_id, session_id=session_id):\n                        status_code = 200", "R17.1", "a refused connection is reported as opened")
+v("C17", "sql-without-connection", "break", DBS,
+  "                if payload.get(\"connection_id\") in self.connections:\n                    result = self._process_sql(",
+  "                if payload.get(\"connection_id\"):\n                    result = self._process_sql(", "R17.2", "queries run for ids the service never issued")
+v("C17", "receive-while-down", "break", DBS,
+  "        # if server service is down, return error\n        if not self._can_perform_action():\n            return False\n",
+  "", "R17.2", "a stopped service answers queries")
+v("C17", "disconnect-from-anyone", "break", DBS,
+  "                    if connected_ip_address == frame.ip.src_ip_address:",
+  "                    if connected_ip_address:", "R17.2", "any host can close another client's connection")
+v("C17", "benign-password-swapped", "benign", DBS,
+  "                if self.config.db_password == password:", "                if password == self.config.db_password:", None, "operands swapped")
+
+# ------------------------------------------------------------------------------------------------ C19
+RAND = P + "game/agent/scripted_agents/random_agent.py"
+PROB = P + "game/agent/scripted_agents/probabilistic_agent.py"
+DMB_AGENT = P + "game/agent/scripted_agents/data_manipulation_bot.py"
+TAP = P + "game/agent/scripted_agents/abstract_tap.py"
+v("C19", "acts-before-schedule", "break", RAND,
+  "        if timestep == self.next_execution_timestep and self.num_executions < self.config.agent_settings.max_executions:",
+  "        if timestep >= self.next_execution_timestep - 1 and self.num_executions < self.config.agent_settings.max_executions:", "R19.1", "acts one step early")
+v("C19", "max-executions-ignored", "break", DMB_AGENT,
+  "            timestep < self.next_execution_timestep\n            or self.num_executions >= self.config.agent_settings.max_executions",
+  "            timestep < self.next_execution_timestep", "R19.1", "the original defect")
+v("C19", "variance-doubled", "break", RAND,
+  "        random_increment = random.randint(-variance, variance)",
+  "        random_increment = random.randint(-variance, 2 * variance)", "R19.2", "gaps can exceed frequency + variance")
+v("C19", "frequency-dropped", "break", RAND,
+  "                timestep + self.config.agent_settings.frequency, self.config.agent_settings.variance",
+  "                timestep + 1, self.config.agent_settings.variance", "R19.2", "fires every step")
+v("C19", "wrong-start-node", "break", RAND,
+  '                "node_name": self.start_node,\n                "application_name": self.config.agent_settings.target_application,',
+  '                "node_name": self.config.agent_settings.possible_start_nodes[0],\n                "application_name": self.config.agent_settings.target_application,', "R19.3", "always the first configured node, not the selected start node")
+v("C19", "values-order", "break", PROB,
+  "        return np.asarray([action_probabilities[i] for i in range(len(action_probabilities))])",
+  "        return np.asarray(list(action_probabilities.values()))", "R19.5", "the original defect")
+v("C19", "uniform-sampling", "break", PROB,
+  "self.rng.choice(len(self.action_manager.action_map), p=self.probabilities)",
+  "self.rng.choice(len(self.action_manager.action_map))", "R19.5", "probabilities ignored")
+v("C19", "benign-gate-swapped", "benign", RAND,
+  "        if timestep == self.next_execution_timestep and self.num_executions < self.config.agent_settings.max_executions:",
+  "        if self.config.agent_settings.max_executions > self.num_executions and self.next_execution_timestep == timestep:", None, "operands and conjuncts swapped")
+
+# ------------------------------------------------------------------------------------------------ C02 / C09
+# the variants written together with the observation engine live next to the rules (sa/rules/c02.py, c09.py: VARIANTS)
+import sys
+
+sys.path.insert(0, os.path.dirname(HERE))
+for _prop in ("C02", "C09"):
+    _mod = __import__(f"sa.rules.{_prop.lower()}", fromlist=["VARIANTS"])
+    for _i, (_what, _kind, _file, _edits) in enumerate(getattr(_mod, "VARIANTS", [])):
+        if _kind == "repair":
+            continue  # repairs of open findings are exercised on the repaired tree itself
+        C.setdefault(_prop, []).append({"id": f"v{_i:02d}", "kind": "break" if _kind == "breaking" else "benign", "file": _file,
+                                        "rule": None, "what": _what, "edits": [{"old": o, "new": n} for o, n in _edits]})
+
 if __name__ == "__main__":
     os.makedirs(os.path.join(HERE, "corpus"), exist_ok=True)
     for prop, items in C.items():
